@@ -362,13 +362,23 @@ def specChecksUnique : PathSpec → Bool
   | .byId => false
   | _ => true
 
-/-- `_export_jobs` up to the first copy: paths, uniqueness, leaf/node -/
+/-- a normalised path that is not below the target: absolute, or starting with `..` -/
+def escapes (n : String) : Bool := startsWithSlash n || (splitSlash n).head? == some ".."
+
+/-- the checks `_export_jobs` runs on the NORMALISED paths (F-16f repaired): below the target,
+    pairwise different (`a`, `a/`, `a/.` are one directory), the root only for a single job,
+    no path both leaf and node -/
+def checkNormalized (ns : List String) : Bool :=
+  !ns.any escapes && checkUnique ns && !(ns.contains "." && ns.length > 1) && checkLeafNode ns
+
+/-- `_export_jobs` up to the first copy: paths, uniqueness, below-target / leaf-node on the
+    normalised paths.  The paths handed to the writers are the raw ones. -/
 def exportPaths (spec : PathSpec) (jobs : List (String × JVal)) : Except Err (List String) :=
   match rawPaths spec jobs with
   | .error e => .error e
   | .ok ps =>
     if specChecksUnique spec && !checkUnique ps then .error .runtimeError
-    else if !checkLeafNode ps then .error .runtimeError
+    else if !checkNormalized (ps.map normpath) then .error .runtimeError
     else .ok ps
 
 /-! ## 5. projects, export targets -/
@@ -376,6 +386,7 @@ def exportPaths (spec : PathSpec) (jobs : List (String × JVal)) : Except Err (L
 inductive Content where
   | sp (v : JVal)     -- a state point file with this value
   | blob (n : Nat)    -- other bytes
+  | dir               -- not a file: an EMPTY sub-directory of the job directory
   deriving Inhabited
 
 structure Job where
@@ -399,9 +410,22 @@ def exportMembers (P : Project) (ds : List Comps) : List (Comps × Content) :=
 def subDirsOf (f : Comps) : List Comps :=
   (List.range (f.length - 1)).map (fun i => f.take (i + 1))
 
+def isDirEntry : Content → Bool
+  | .dir => true
+  | _ => false
+
+/-- the directories an entry of a job lies in; an empty directory is one itself -/
+def entryDirs (fc : Comps × Content) : List Comps :=
+  if isDirEntry fc.2 then subDirsOf fc.1 ++ [fc.1] else subDirsOf fc.1
+
 /-- directory members `tarfile.add(src, dst)` writes for one job: its root and every sub-directory -/
 def dirBlock (e : Job × Comps) : List Comps :=
-  dedup (e.2 :: (e.1.files.flatMap (fun fc => subDirsOf fc.1)).map (e.2 ++ ·))
+  dedup (e.2 :: (e.1.files.flatMap entryDirs).map (e.2 ++ ·))
+
+/-- what `copytree_to_zip` writes: `os.walk` + `zipfile.write` for FILES only — empty
+    sub-directories are not stored (F-16e, known finding: current behaviour) -/
+def zipMembers (P : Project) (ds : List Comps) : List (Comps × Content) :=
+  (exportMembers P ds).filter (fun fc => !isDirEntry fc.2)
 
 def exportDirMembers (P : Project) (ds : List Comps) : List Comps :=
   (P.zip ds).flatMap dirBlock
@@ -631,6 +655,7 @@ def readSp (files : List (Comps × Content)) (d : Comps) : Except Err (Option JV
   match lookupFile (d ++ [fnSp]) files with
   | some (.sp v) => .ok (some v)
   | some (.blob _) => .error .valueError
+  | some .dir => .error .valueError
   | none => .ok none
 
 def lookupTable (p : Comps) : List (Comps × JVal) → Option JVal
@@ -732,6 +757,7 @@ def initJob (hash : JVal → String) (id : String) (sp : JVal) (fs : List (Comps
   match lookupFile [fnSp] fs with
   | some (.sp w) => if hash w = id then .ok (fs, []) else .error .jobsCorrupted
   | some (.blob _) => .error .jobsCorrupted
+  | some .dir => .error .jobsCorrupted
   | none => .ok (fs ++ [([fnSp], .sp sp)], [[wsName, id, fnSp]])
 
 def hasId (id : String) (p : Project) : Bool := p.any (fun j => j.id = id)
@@ -788,7 +814,8 @@ def importTar (hash : JVal → String) (schema : Schema) (dst : Project)
 
 /-- every directory of a tree that holds `files`: the root and all ancestors of files -/
 def allDirs (files : List (Comps × Content)) : List Comps :=
-  dedup ([] :: files.flatMap (fun fc => (List.range fc.1.length).map (fun i => fc.1.take i)))
+  dedup ([] :: files.flatMap (fun fc =>
+    (List.range fc.1.length).map (fun i => fc.1.take i) ++ (if isDirEntry fc.2 then [fc.1] else [])))
 
 /-- `_crawl_directory_data_space` + `_analyze_directory_for_import` + executors: lazy — each
     identified directory is copied before the next one is looked at.  Directories are visited
@@ -837,7 +864,7 @@ def exportProject (spec : PathSpec) (P : Project) : Except Err (List String) :=
 def importFrom (t : Target) (hash : JVal → String) (schema : Schema) (dst : Project)
     (P : Project) (ds : List Comps) (order : List Comps) : ImportResult :=
   match t with
-  | .zip => importZip hash schema dst (exportMembers P ds)
+  | .zip => importZip hash schema dst (zipMembers P ds)
   | .tar => importTar hash schema dst (exportMembers P ds) (exportDirMembers P ds)
   | .dir =>
     -- exporting no job to a directory creates nothing; the import then refuses the origin
